@@ -123,14 +123,27 @@ ChecksOK(arg, raw) == \A k \in 1..Len(arg.checks) : CheckOK(arg.checks[k], raw)
 RECURSIVE Formatted(_, _, _)
 Formatted(fs, k, t) == IF k > Len(fs) THEN t
                        ELSE Formatted(fs, k + 1, IF fs[k] = "upper" THEN ToUpper(t) ELSE IF fs[k] = "lower" THEN ToLower(t) ELSE t)
-ElemIsInt(kind) == kind \in {"int", "optint", "vecint", "setint", "listint", "dequeint", "arr3"}
-IsContainer(kind) == kind \in {"vecint", "vecstr", "setint", "listint", "dequeint", "arr3"}
-\* one element: raw text -> [ok, v]
-ConvElem(arg, raw) ==
-   LET f == Formatted(arg.formats, 1, raw) IN
+\* destination kinds.  Containers differ in where a new element is placed and in what they refuse:
+\*   back: vector, list, deque, queue (projection of a queue: pop order)      front: forward_list, stack (pop order)
+\*   set: ordered, unique        mset: ordered, duplicates kept        pq: priority_queue (pop order: descending)
+\*   arr3/sarr3: int[3] / std::array<int,3>, filled from index 0, refuse a 4th element
+\*   tup: std::tuple<int,string,int>, exactly three values     bits8: std::bitset<8>, values are bit positions
+IntKinds == {"int", "optint", "vecint", "setint", "listint", "dequeint", "arr3", "sarr3", "fwdint", "msetint",
+             "stackint", "queueint", "pqint", "bits8"}
+ContKinds == {"vecint", "vecstr", "setint", "listint", "dequeint", "arr3", "sarr3", "fwdint", "msetint",
+              "stackint", "queueint", "pqint", "tup", "bits8"}
+ArrKinds == {"arr3", "sarr3"}
+ElemIsInt(kind) == kind \in IntKinds
+IsContainer(kind) == kind \in ContKinds
+IsArr(kind) == kind \in ArrKinds
+\* one element: raw text -> [ok, v]; idx = 0-based index of the element in the destination (tuples)
+ConvElemAt(arg, raw, idx) ==
+   LET f == Formatted(arg.formats, 1, raw)
+       isint == IF arg.kind = "tup" THEN idx # 1 ELSE ElemIsInt(arg.kind) IN
    IF ~ChecksOK(arg, raw) THEN [ok |-> FALSE, v |-> 0]
-   ELSE IF ElemIsInt(arg.kind) THEN (IF IsIntText(f) THEN [ok |-> TRUE, v |-> IntOf(f)] ELSE [ok |-> FALSE, v |-> 0])
+   ELSE IF isint THEN (IF IsIntText(f) THEN [ok |-> TRUE, v |-> IntOf(f)] ELSE [ok |-> FALSE, v |-> 0])
    ELSE [ok |-> TRUE, v |-> f]
+ConvElem(arg, raw) == ConvElemAt(arg, raw, 0)
 
 \* container placement and options (property C06)
 Contains(s, v) == \E k \in 1..Len(s) : s[k] = v
@@ -138,23 +151,38 @@ RECURSIVE InsertSorted(_, _)
 InsertSorted(s, v) == IF Len(s) = 0 THEN <<v>>
                       ELSE IF v < s[1] THEN <<v>> \o s
                       ELSE <<s[1]>> \o InsertSorted(Tail2(s, 2), v)
+RECURSIVE InsertDesc(_, _)
+InsertDesc(s, v) == IF Len(s) = 0 THEN <<v>>
+                    ELSE IF v > s[1] THEN <<v>> \o s
+                    ELSE <<s[1]>> \o InsertDesc(Tail2(s, 2), v)
 RECURSIVE SortInts(_)
 SortInts(s) == IF Len(s) = 0 THEN <<>> ELSE InsertSorted(SortInts(Tail2(s, 2)), s[1])
-AddTo(kind, s, v) == IF kind = "setint" THEN (IF Contains(s, v) THEN s ELSE InsertSorted(s, v)) ELSE Append(s, v)
-Capacity(kind) == IF kind = "arr3" THEN 3 ELSE 1000000
+AddTo(kind, s, v) ==
+   CASE kind = "setint"  -> IF Contains(s, v) THEN s ELSE InsertSorted(s, v)
+     [] kind = "msetint" -> InsertSorted(s, v)
+     [] kind = "pqint"   -> InsertDesc(s, v)
+     [] kind \in {"fwdint", "stackint"} -> <<v>> \o s
+     [] OTHER -> Append(s, v)
+SortedKind(kind) == kind \in {"setint", "msetint", "pqint"}
 
-\* fold the tokens of one value text into container content c.
-\* result [ok, c, n]  (n = number of elements seen, for cardinality)
+\* fold the tokens of one value text into container content c; filled = elements stored so far in a
+\* fixed-size destination.  result [ok, c, filled]
 RECURSIVE FoldTokens(_, _, _, _, _)
 FoldTokens(arg, toks, k, c, filled) ==
    IF k > Len(toks) THEN [ok |-> TRUE, c |-> c, filled |-> filled]
-   ELSE LET r == ConvElem(arg, toks[k]) IN
-        IF ~r.ok THEN [ok |-> FALSE, c |-> c, filled |-> filled]
-        ELSE IF arg.kind = "arr3" /\ filled >= 3 THEN [ok |-> FALSE, c |-> c, filled |-> filled]
-        ELSE IF arg.uniq # "no" /\ Contains(IF arg.kind = "arr3" THEN SubSeq(c, 1, filled) ELSE c, r.v) THEN
+   ELSE LET r == ConvElemAt(arg, toks[k], filled) IN
+        IF arg.kind = "tup" THEN
+             (IF filled >= 3 \/ ~r.ok THEN [ok |-> FALSE, c |-> c, filled |-> filled]
+              ELSE FoldTokens(arg, toks, k + 1, [c EXCEPT ![filled + 1] = r.v], filled + 1))
+        ELSE IF ~r.ok THEN [ok |-> FALSE, c |-> c, filled |-> filled]
+        ELSE IF arg.kind = "bits8" THEN
+             (IF r.v < 0 \/ r.v >= 8 THEN [ok |-> FALSE, c |-> c, filled |-> filled]
+              ELSE FoldTokens(arg, toks, k + 1, [c EXCEPT ![r.v + 1] = TRUE], filled))
+        ELSE IF IsArr(arg.kind) /\ filled >= 3 THEN [ok |-> FALSE, c |-> c, filled |-> filled]
+        ELSE IF arg.uniq # "no" /\ Contains(IF IsArr(arg.kind) THEN SubSeq(c, 1, filled) ELSE c, r.v) THEN
              (IF arg.uniq = "error" THEN [ok |-> FALSE, c |-> c, filled |-> filled]
               ELSE FoldTokens(arg, toks, k + 1, c, filled))
-        ELSE IF arg.kind = "arr3" THEN FoldTokens(arg, toks, k + 1, [c EXCEPT ![filled + 1] = r.v], filled + 1)
+        ELSE IF IsArr(arg.kind) THEN FoldTokens(arg, toks, k + 1, [c EXCEPT ![filled + 1] = r.v], filled + 1)
         ELSE FoldTokens(arg, toks, k + 1, AddTo(arg.kind, c, r.v), filled)
 
 \* ---------------------------------------------------------------- state
@@ -171,16 +199,21 @@ Fail(st) == [st EXCEPT !.out = "err"]
 Undef(st) == [st EXCEPT !.out = "undef"]
 WithCursor(st, e) == [st EXCEPT !.i = e.i, !.pos = e.pos, !.nval = e.nval, !.dashed = e.dashed]
 
-CardMax(card) == CASE card.t = "dflt" -> 1 [] card.t = "max" -> card.a [] card.t = "exact" -> card.a
+\* default cardinality: at most one use for scalars, exactly three values for the tuple, none for containers
+EffCard(arg) == IF arg.card.t # "dflt" THEN arg.card
+                ELSE IF arg.kind = "tup" THEN [t |-> "exact", a |-> 3, b |-> 0]
+                ELSE IF IsContainer(arg.kind) THEN [t |-> "none", a |-> 0, b |-> 0]
+                ELSE [t |-> "max", a |-> 1, b |-> 0]
+CardMax(card) == CASE card.t = "max" -> card.a [] card.t = "exact" -> card.a
                    [] card.t = "range" -> card.b [] OTHER -> -1
-HasCard(arg) == IF arg.card.t = "dflt" THEN ~IsContainer(arg.kind) ELSE arg.card.t # "none"
+HasCard(arg) == EffCard(arg).t # "none"
 
 \* store value text v (hasv = a value was given) in argument a; count = cardinality applies
 AssignTo(cfg, st, a, hasv, v, count) ==
    LET arg == cfg.args[a]
        c1 == IF count /\ HasCard(arg) THEN st.cnt[a] + 1 ELSE st.cnt[a] IN
    IF arg.depr THEN Fail(st)
-   ELSE IF count /\ HasCard(arg) /\ CardMax(arg.card) >= 0 /\ c1 > CardMax(arg.card) THEN Fail(st)
+   ELSE IF count /\ HasCard(arg) /\ CardMax(EffCard(arg)) >= 0 /\ c1 > CardMax(EffCard(arg)) THEN Fail(st)
    ELSE IF arg.kind = "flag" THEN
         [st EXCEPT !.dest[a] = IF arg.unset THEN FALSE ELSE ~arg.init, !.has[a] = TRUE, !.cnt[a] = c1]
    ELSE IF ~IsContainer(arg.kind) THEN
@@ -189,14 +222,16 @@ AssignTo(cfg, st, a, hasv, v, count) ==
         ELSE [st EXCEPT !.dest[a] = IF arg.kind = "optint" THEN <<r.v>> ELSE r.v, !.has[a] = TRUE, !.cnt[a] = c1]
    ELSE
         LET toks == SplitAt(v, arg.sep)
-            base == IF arg.clear /\ ~st.cleared[a] THEN (IF arg.kind = "arr3" THEN st.dest[a] ELSE <<>>) ELSE st.dest[a]
+            base == IF arg.clear /\ ~st.cleared[a]
+                      THEN (IF arg.kind = "bits8" THEN [k \in 1..8 |-> FALSE] ELSE IF IsArr(arg.kind) \/ arg.kind = "tup" THEN st.dest[a] ELSE <<>>)
+                      ELSE st.dest[a]
             \* every element after the first of one value text counts for the cardinality as well
             c2 == IF HasCard(arg) /\ Len(toks) > 1 THEN c1 + Len(toks) - 1 ELSE c1
             r == FoldTokens(arg, toks, 1, base, st.filled[a])
-            sorted == IF arg.sort /\ arg.kind # "setint"
-                        THEN (IF arg.kind = "arr3" THEN SortInts(SubSeq(r.c, 1, r.filled)) \o Tail2(r.c, r.filled + 1) ELSE SortInts(r.c))
+            sorted == IF arg.sort /\ ~SortedKind(arg.kind)
+                        THEN (IF IsArr(arg.kind) THEN SortInts(SubSeq(r.c, 1, r.filled)) \o Tail2(r.c, r.filled + 1) ELSE SortInts(r.c))
                         ELSE r.c IN
-        IF HasCard(arg) /\ CardMax(arg.card) >= 0 /\ c2 > CardMax(arg.card) THEN Fail(st)
+        IF HasCard(arg) /\ CardMax(EffCard(arg)) >= 0 /\ c2 > CardMax(EffCard(arg)) THEN Fail(st)
         ELSE IF ~r.ok THEN Fail(st)
         ELSE [st EXCEPT !.dest[a] = sorted, !.has[a] = TRUE, !.cnt[a] = c2, !.cleared[a] = TRUE, !.filled[a] = r.filled]
 
@@ -230,7 +265,7 @@ Mag(x) == IF x < 0 THEN 0 - x ELSE x
 EndChecks(cfg, st) ==
    LET A == 1..NArgs(cfg)
        used(S) == UsesOf(st, S) # {}
-       cardBad(a) == LET card == cfg.args[a].card IN
+       cardBad(a) == LET card == EffCard(cfg.args[a]) IN
                      /\ st.cnt[a] # 0
                      /\ \/ card.t = "exact" /\ st.cnt[a] # card.a
                         \/ card.t = "range" /\ st.cnt[a] < card.a
